@@ -24,9 +24,14 @@ type c10case struct {
 	N        int
 	Opt      string // "", "tags", "semver"
 	Batch    int    // 0: default listing page size; otherwise core.BatchSize (squash lists bundles and labels in pages)
+	Empty    int    // -1: none; i: committed bundle i is an empty commit (no file)
+	S3Delete bool   // the metadata stores answer like S3 / localfs: deleting a key that does not exist succeeds
 }
 
 func (c c10case) String() string {
+	if c.Empty >= 0 || c.S3Delete {
+		return fmt.Sprintf("k=%d labels=%v leftover(pos=%d,files=%d) retain=%d opt=%q empty-commit=#%d delete-of-missing-key-succeeds=%v", c.K, c.Labels, c.LeftPos, c.LeftKind, c.N, c.Opt, c.Empty, c.S3Delete)
+	}
 	if c.Batch > 0 {
 		return fmt.Sprintf("k=%d labels=%v leftover(pos=%d,files=%d) retain=%d opt=%q page-size=%d", c.K, c.Labels, c.LeftPos, c.LeftKind, c.N, c.Opt, c.Batch)
 	}
@@ -59,14 +64,22 @@ func c10cases() []c10case {
 				}
 				for _, lk := range kinds {
 					for n := 1; n <= maxN; n++ {
+						if lm == 0 && k >= 1 {
+							// one of the committed bundles is an empty commit; on both kinds of store
+							for e := 0; e < k; e++ {
+								for _, s3 := range []bool{false, true} {
+									out = append(out, c10case{K: k, Labels: labels, LeftPos: pos, LeftKind: lk, N: n, Empty: e, S3Delete: s3})
+								}
+							}
+						}
 						for _, opt := range []string{"", "tags", "semver"} {
 							if opt != "" && lm == 0 {
 								continue // no label at all: same as no option
 							}
-							out = append(out, c10case{K: k, Labels: labels, LeftPos: pos, LeftKind: lk, N: n, Opt: opt})
+							out = append(out, c10case{K: k, Labels: labels, LeftPos: pos, LeftKind: lk, N: n, Opt: opt, Empty: -1})
 							if k >= 2 && (lib.Thorough() || k == maxK) {
 								// listings of more than one page (page size 2)
-								out = append(out, c10case{K: k, Labels: labels, LeftPos: pos, LeftKind: lk, N: n, Opt: opt, Batch: 2})
+								out = append(out, c10case{K: k, Labels: labels, LeftPos: pos, LeftKind: lk, N: n, Opt: opt, Batch: 2, Empty: -1})
 							}
 						}
 					}
@@ -81,6 +94,7 @@ func c10run(t *testing.T, rep *lib.Report, c c10case) {
 	lib.Bubble(t, func() {
 		w := NewWorld()
 		w.Blob.NoJournal = true
+		w.Meta.DeleteMissingOK, w.VMeta.DeleteMissingOK = c.S3Delete, c.S3Delete
 		st := w.Stores()
 		_ = mkRepo(st, "r")
 		var ids []string
@@ -100,6 +114,9 @@ func c10run(t *testing.T, rep *lib.Report, c c10case) {
 				left()
 			}
 			f := map[string][]byte{"common": []byte("same"), fmt.Sprintf("f%d", i): []byte(fmt.Sprintf("content-%d", i))}
+			if c.Empty == i {
+				f = map[string][]byte{}
+			}
 			b, err := uploadFiles(st, "r", f, c11L, 0)
 			if err != nil {
 				panic(err)
@@ -246,7 +263,7 @@ func TestC10(t *testing.T) {
 	rep := lib.NewReport("C10", "model_checking")
 	defer rep.Finish(t)
 	cases := c10cases()
-	rep.Rule = "exhaustive product: 0..4 (quick 3) committed bundles one fake second apart x per-bundle labels in {none, plain tag, semver tag, plain tag listed before + semver, semver + plain tag listed after} x an interrupted upload (1 or 2 index files written, no descriptor) at every position (none/before/between/after) x retain-N in 1..3 (quick 2) x {no option, retain-tags, retain-semver-tags} x listing page size {default, 2 (quick: for the largest histories)}; real RepoSquash in a fake-clock bubble; oracle: kept = N most recent committed + labelled per option, the rest and their labels gone (no metadata left), kept bundles download unchanged, most recent committed bundle always kept; plus squash (retain 1, with/without a leftover newer than every bundle, with/without retain-tags) under a single transient failure at EVERY metadata call: bundles to keep are never removed and stay downloadable whatever squash reports, a reported success means exactly the specified set; distinct = distinct cases"
+	rep.Rule = "exhaustive product: 0..4 (quick 3) committed bundles one fake second apart x per-bundle labels in {none, plain tag, semver tag, plain tag listed before + semver, semver + plain tag listed after} x an interrupted upload (1 or 2 index files written, no descriptor) at every position (none/before/between/after) x retain-N in 1..3 (quick 2) x {no option, retain-tags, retain-semver-tags} x listing page size {default, 2 (quick: for the largest histories)}; plus, for unlabelled histories, each committed bundle in turn being an empty commit, on stores where deleting a missing key fails (GCS) and where it succeeds (S3, localfs); real RepoSquash in a fake-clock bubble; oracle: kept = N most recent committed + labelled per option, the rest and their labels gone (no metadata left), kept bundles download unchanged, most recent committed bundle always kept; plus squash (retain 1, with/without a leftover newer than every bundle, with/without retain-tags) under a single transient failure at EVERY metadata call: bundles to keep are never removed and stay downloadable whatever squash reports, a reported success means exactly the specified set; distinct = distinct cases"
 	parent := lib.RunCases(t, rep, "TestC10", len(cases), 0, 120*time.Second, func(i int) {
 		c10run(t, rep, cases[i])
 		rep.AddStates(1, 1, 1)
